@@ -114,7 +114,10 @@ def load_floors():
 # UNDECIDED with both reasons, and the instance floor of the rule is waived.  The models contain a fault for every check of the
 # builders, a declaration of every kind and the operand snapshot, so a real violation of the clause is still reported -- by the model.
 PRECEDENCE = [
-    ('R-BUILD.', None, [('R-MODEL.M36', 4), ('R-MODEL.M35', 4)]),
+    ('R-BUILD.checks', None, [('R-MODEL.M36', 4), ('R-MODEL.M35', 4)]),
+    ('R-BUILD.guard', None, [('R-MODEL.M36', 4), ('R-MODEL.M35', 4)]),
+    ('R-BUILD.empty', None, [('R-MODEL.M36', 4), ('R-MODEL.M35', 4)]),
+    ('R-BUILD.inv', None, [('R-MODEL.M40', 4)]),
     ('R-IO.a', None, [('R-MODEL.M35', 4)]),
     ('R-EFFECT.a', ('cfg_print_simple',), [('R-MODEL.M39', 1)]),
     ('R-WORK.W', ('dfa_reachable_states',), [('R-MODEL.M12', 1), ('R-MODEL.M21', 1)]),
@@ -135,8 +138,25 @@ def _models_hold(rep, models):
     return True
 
 
-def model_precedence(rep):
+# structural rules whose VIOLATES is downgraded (round w showed a false VIOLATES of each on a correct refactoring); for the other
+# entries of PRECEDENCE only the instance floor is waived -- the self-test has mutants of R-SYM.or that M14 does not see
+DOWNGRADE = ('R-BUILD.checks', 'R-BUILD.guard', 'R-BUILD.inv', 'R-IO.a', 'R-EFFECT.a')
+
+
+MODEL_RUNNERS = {'R-MODEL.M40': 'check_class_invariants', 'R-MODEL.M35': 'check_text_roundtrip', 'R-MODEL.M36': 'check_descriptions', 'R-MODEL.M39': 'check_simple_cfg_roundtrip'}
+
+
+def model_precedence(rep, ctx=None):
     for prefix, funcs, models in PRECEDENCE:
+        if prefix not in DOWNGRADE:
+            continue
+        hit = [i for i in rep.instances if i.verdict == VIOLATES and i.rule.startswith(prefix)]
+        if hit and ctx is not None:
+            # the models that decide the clause are run for this property too when a structural rule objects
+            for rule, _ in models:
+                if rule in MODEL_RUNNERS and not any(i.rule == rule for i in rep.instances):
+                    from .rules import small_models3
+                    getattr(small_models3, MODEL_RUNNERS[rule])(ctx, rep)
         hit = [i for i in rep.instances if i.verdict == VIOLATES and i.rule.startswith(prefix) and (funcs is None or any(i.where.endswith(':' + fn0) or ('.' + fn0) in i.where or (':' + fn0 + '.') in i.where for fn0 in funcs))]
         if hit and _models_hold(rep, models):
             for i in hit:
